@@ -115,10 +115,11 @@ Section FaultStatements.
   Variables tnb tnk : str -> str.
   Variables accb acck : str -> str -> Prop.
   Variables rhb rhk whb whk : fhandle -> str -> nat -> Prop.
+  Variables hid anc : str -> Prop.
   Variable B0 : store.
   Variables tagb tagk : fstag.
 
-  Let Lb := base_laws base Vb Vk tnb accb rhb whb.
+  Let Lb := base_laws base Vb Vk tnb accb rhb whb hid anc.
   Let Lk := backup_laws backup Vb Vk tnk acck rhk whk.
   Let Lb2 := base_laws2 base Vb Vk tnb accb rhb whb.
   Let Fb := fault_laws base Vb tagb rhb whb.
@@ -160,7 +161,7 @@ Section FaultStatements.
       restored, the backup view empty and nothing tracked any more; and once
       the plan is spent Rollback does return nil *)
   Definition rollback_fault_stmt : Prop :=
-    Lb -> Lk -> Fb -> Fk -> links_ok tnb tnk accb acck B0 -> all_small B0 -> swf B0 ->
+    Lb -> Lk -> Fb -> Fk -> links_ok tnb tnk accb acck B0 -> all_small B0 -> swf B0 -> loc_ok hid anc B0 ->
     forall w, invf w -> single (w_faults w) ->
     exists r w', b_rollback base backup w = (r, w') /\ r <> MHalt /\ w_crash w' = None /\
       (r = MOk tt -> store_eqv (Vb w') B0 /\ (forall p, p <> s_root -> Vk w' !! p = None) /\
@@ -169,7 +170,7 @@ Section FaultStatements.
 
   (** ... and the first half for every fault plan, whatever its length *)
   Definition rollback_nil_stmt : Prop :=
-    Lb -> Lk -> Fb -> Fk -> links_ok tnb tnk accb acck B0 -> all_small B0 -> swf B0 ->
+    Lb -> Lk -> Fb -> Fk -> links_ok tnb tnk accb acck B0 -> all_small B0 -> swf B0 -> loc_ok hid anc B0 ->
     forall w r w', invf w -> b_rollback base backup w = (r, w') ->
     r <> MHalt /\
     (r = MOk tt -> store_eqv (Vb w') B0 /\ (forall p, p <> s_root -> Vk w' !! p = None) /\
